@@ -8,6 +8,7 @@ import logging
 import os
 import urllib.parse
 import zipfile
+import zlib
 from typing import Any, Dict, List, Optional, Tuple
 
 import common
@@ -428,6 +429,11 @@ def gen_page(rng, enc440, triple) -> Tuple[str, Dict[str, int]]:
         elif r < 0.12:
             line = "<link href=\"x\">" + fname
             odd = "not-an-anchor"
+        elif r < 0.16:
+            # an anchor that is never closed: the next <a> starts a new link, and nothing of this one (its
+            # requires-python verdict in particular) may leak into the next
+            line = "<" + tag + " " + " ".join(attrs) + ">" + fname
+            odd = "unclosed"
         if odd:
             stats["odd:" + odd] = stats.get("odd:" + odd, 0) + 1
         out.append(line + rng.choice(["<br/>\n", "<br />\n", "\n", "<br>\n"]))
@@ -471,13 +477,14 @@ class FakeResponse(common.FakeResponseBase):
 
 
 class FakeSession(common.FakeSessionBase):
-    def __init__(self, pages: Dict[str, bytes]) -> None:
+    def __init__(self, pages: Dict[str, bytes], final: Optional[Dict[str, str]] = None) -> None:
         self.pages, self.requested = pages, []
+        self.final = final or {}      # requested address -> address the (redirected) response reports as its own
 
     def get(self, url: str, *args: Any, **kwargs: Any) -> FakeResponse:     # stream=, timeout=, headers= ...: all the same here
         self.requested.append(url)
         if url in self.pages:
-            return FakeResponse(url, self.pages[url])
+            return FakeResponse(self.final.get(url, url), self.pages[url])
         bare = urllib.parse.urldefrag(url)[0]     # a fragment is never sent to the server
         if bare in self.pages:
             return FakeResponse(bare, self.pages[bare])
@@ -492,8 +499,12 @@ def impl_page(html: str, triple) -> Tuple[Any, List[Any], str]:
     P = imp()["P"]
     Rec = make_recorder()
     Rec.events = []
-    url = "https://idx.example.org/simple/proj/"
-    sess = FakeSession({url: html.encode("utf-8")})
+    asked = "https://idx.example.org/simple/proj/"
+    # every third page is served after a redirect (requests follows it; response.url is the final address):
+    # relative links are relative to the page that was actually served, and the link a candidate carries is that page's
+    redirected = zlib.crc32(html.encode("utf-8")) % 3 == 0
+    url = "https://mirror.example.net/root/pypi/simple/proj/" if redirected else asked
+    sess = FakeSession({asked: html.encode("utf-8")}, final={asked: url})
     scan = getattr(P._scan_page_links, "__wrapped__", P._scan_page_links)
     saved = P.LinksHTMLParser
     P.LinksHTMLParser = Rec
